@@ -18,58 +18,6 @@ func newVerifLCD() *verifLCD {
 	return &verifLCD{p, intr, o}
 }
 
-// documented mode of the cycle with frame index t (0..17555): line = t/114, cycle in line = t%114
-func refMode(t int) uint8 {
-	line := t / 114
-	c := t % 114
-	switch {
-	case line >= 144:
-		return 1
-	case c < 20:
-		return 2
-	case c < 61:
-		return 3
-	}
-	return 0
-}
-
-func prevTick(t int) int {
-	if t == 0 {
-		return 17555
-	}
-	return t - 1
-}
-
-// lcdInv: representation invariant tying (ticks, mode, ly, firstLine) together; ticks is the frame index
-// the next machine cycle will consume. LY is allowed to be 0 at any time (a CPU write to FF44 clears it until
-// the next machine cycle recomputes it); lcdInvStrict is what holds right after a machine cycle.
-func lcdInv(p *PPU) bool {
-	return lcdInvGen(p, true)
-}
-
-func lcdInvStrict(p *PPU) bool {
-	return lcdInvGen(p, false)
-}
-
-func lcdInvGen(p *PPU, lyMayBeCleared bool) bool {
-	if !p.enabled {
-		return p.ticks == 0 && p.ly == 0 && p.mode == 0
-	}
-	if p.ticks < 0 || p.ticks >= 17556 {
-		return false
-	}
-	if p.firstLine {
-		if p.ticks > 61 {
-			return false
-		}
-		if p.ticks == 0 {
-			return p.mode == 2 && p.ly == 0
-		}
-	}
-	q := prevTick(p.ticks)
-	return p.mode == refMode(q) && (int(p.ly) == q/114 || (lyMayBeCleared && p.ly == 0))
-}
-
 // oamWindow: the OAM corruption window is open only while the LCD is on and in mode 2 (C17)
 func oamWindow(l *verifLCD) bool {
 	return !l.o.VerifCorrupt() || (l.p.enabled && l.p.mode == 2)
